@@ -973,12 +973,14 @@ def _member_attr_collection(v, fv=None, at=None):
         pre = []
         src_ok = U(g.iter) == "self"
         if not src_ok and fv is not None and isinstance(g.iter, ast.Name) and at is not None:
-            from ..astutil import filtered_collection
+            from ..astutil import filtered_collection_defs
 
-            fc = filtered_collection(fv, g.iter.id, at)
-            if fc is not None and fc[0] == "self":
+            fcs = filtered_collection_defs(fv, g.iter.id, at)
+            if fcs and all(fc[0] == "self" for fc in fcs):
                 src_ok = True
-                pre = [fc[1].replace("_.", mv + ".").replace("_", mv) if False else fc[1].replace("_", mv)]
+                alts = [sorted(([fc[1].replace("_", mv)] if fc[1] is not None else []) + [U(t) for t in g.ifs]) for fc in fcs]
+                if isinstance(v.elt, ast.Attribute) and isinstance(v.elt.value, ast.Name) and v.elt.value.id == mv:
+                    return v.elt.attr, alts[0], mv, alts
         if src_ok and isinstance(v.elt, ast.Attribute) and isinstance(v.elt.value, ast.Name) and v.elt.value.id == mv:
             return v.elt.attr, sorted(pre + [U(t) for t in g.ifs]), mv
     return None
@@ -1042,7 +1044,8 @@ def check_statistics(ctx, rule="STAT"):
                     bad = (dn.stmt, f"collects `.{r[0]}` of the members, not `.{attr}`")
                 else:
                     n_ok += 1
-                    filt_by_attr.setdefault(attr, set()).add((tuple(t.replace(r[2] + ".", "m.") for t in r[1])))
+                    for alt in (r[3] if len(r) > 3 else [r[1]]):
+                        filt_by_attr.setdefault(attr, set()).add((tuple(t.replace(r[2] + ".", "m.") for t in alt)))
             if bad:
                 ctx.violate(rule, f"{site}:{key}", (fi, bad[0]), f"`{U(bad[0])[:80]}` {bad[1]}: the statistic no longer equals its definition over the members "
                             "(e.g. the volume of a perturbed droplet, or of a member of another dimension, is not the sphere volume of its radius)")
